@@ -245,7 +245,10 @@ class Measure(object):
     """What one element of one case yields."""
     __slots__ = ('in_scope', 'skip', 'exact', 'value', 'err', 'S', 'floor', 'est', 'final_step', 'chat0', 'cn_abs',
                  'rho_valid', 'W', 'nsteps', 'cancel_free', 'noise', 'full_window', 'trunc', 'E', 'P', 'rad',
-                 'chosen_beyond_validity', 'lam')
+                 'chosen_beyond_validity', 'lam', 'chat', 'n')
+
+    def S_at(self, rho):
+        return s_of_rho(self.chat, self.n, rho)
 
 
 def run_case(case, ctx, full_output=True):
@@ -296,6 +299,7 @@ def oracle_for_element(case, res, e, x_e, value_e, est_e, fstep_e):
     chat = [float(abs(c)) for c in coefs]
     chat[0] += noise / EPS
     m.chat0, m.cn_abs = chat[0], float(abs(m.exact))
+    m.chat, m.n = chat, n
     if n == 0:
         m.in_scope = True
         return m
